@@ -2035,8 +2035,15 @@ func (ls *LState) Status(th *LState) string {
 }
 
 func (ls *LState) Resume(th *LState, fn *LFunction, args ...LValue) (ResumeState, error, []LValue) {
+	if ls.G.CurrentThread == th || th.Parent != nil {
+		return ResumeError, newApiErrorS(ApiErrorRun, "can not resume a running thread"), nil
+	}
+	if th.Dead {
+		return ResumeError, newApiErrorS(ApiErrorRun, "can not resume a dead thread"), nil
+	}
 	isstarted := th.isStarted()
-	if !isstarted {
+	if !isstarted && th.stack.IsEmpty() {
+		// a thread made by coroutine.create already carries the frame of its body
 		base := 0
 		th.stack.Push(callFrame{
 			Fn:         fn,
@@ -2049,13 +2056,6 @@ func (ls *LState) Resume(th *LState, fn *LFunction, args ...LValue) (ResumeState
 			Parent:     nil,
 			TailCall:   0,
 		})
-	}
-
-	if ls.G.CurrentThread == th || th.Parent != nil {
-		return ResumeError, newApiErrorS(ApiErrorRun, "can not resume a running thread"), nil
-	}
-	if th.Dead {
-		return ResumeError, newApiErrorS(ApiErrorRun, "can not resume a dead thread"), nil
 	}
 	if err := ls.enterThread(th, func() {
 		if !isstarted {
